@@ -25,7 +25,7 @@ import (
 
 func init() {
 	register(&Check{ID: "C07", Level: "exploration",
-		Rule: "(a) concurrent E2E history on few keys x client groups (ip ranges incl. same label on two ranges, boundary addresses, v6 via DoH header) over several lifetimes, checked for key integrity, group isolation, equality modulo TTL/ID and hit-required; (b) sequential key-component pairs (one component changed => miss, equivalent => hit); (c) MemoryCache histories under eviction with injected delay checked by porcupine against a bag-register model; (d) range tables vs linear scan; (e) in-process overwrite stress and concurrent lookups of live entries (all must hit); pairs include replies beyond 64 KiB uncompressed compared with their first relay; " +
+		Rule: "(a) concurrent E2E history on few keys x client groups (ip ranges incl. same label on two ranges, boundary addresses, v6 via DoH header) over several lifetimes, checked for key integrity, group isolation, equality modulo TTL/ID and hit-required; (b) sequential key-component pairs (one component changed => miss, equivalent => hit); (c) MemoryCache histories under eviction with injected delay checked by porcupine against a bag-register model; (d) range tables vs linear scan; (e) in-process overwrite stress and concurrent lookups of live entries (all must hit), keys and values passed to Store in pooled buffers that are overwritten and released right afterwards; pairs include replies beyond 64 KiB uncompressed compared with their first relay; " +
 			"one evaluation = one response / one history / one table; distinct non-trivial = distinct (part, key or variant kind, group, cached?) combinations",
 		Run: runC07})
 }
@@ -44,6 +44,8 @@ func runC07(c *Ctx) {
 		switch only {
 		case "stress":
 			c07Stress(c)
+		case "callerbufs":
+			c07CallerBuffers(c)
 		case "hits":
 			c07ConcurrentHits(c)
 		case "late":
@@ -68,6 +70,7 @@ func runC07(c *Ctx) {
 	wg.Wait()
 	c07Porcupine(c)
 	c07Stress(c)
+	c07CallerBuffers(c)
 	c07ConcurrentHits(c)
 	c07RangeTable(c)
 }
@@ -466,7 +469,7 @@ func c07Stress(c *Ctx) {
 				k := r.Intn(nKeys)
 				size := gen.Pick(r, []int{3000, 9000, 20000, 48000})
 				now := time.Now()
-				mc.Store([]byte(fmt.Sprintf("stress-key-%d", k)), now, now.Add(time.Minute), mkVal(k, ver&0xff, size), false)
+				mcStore(mc, []byte(fmt.Sprintf("stress-key-%d", k)), now, now.Add(time.Minute), mkVal(k, ver&0xff, size), false)
 			}
 		}(w)
 	}
@@ -478,7 +481,7 @@ func c07Stress(c *Ctx) {
 			small := bytes.Repeat([]byte{0x55}, 64)
 			for !stop.Load() {
 				now := time.Now()
-				mc.Store([]byte(fmt.Sprintf("small-%d", r.Intn(64))), now, now.Add(time.Minute), small, false)
+				mcStore(mc, []byte(fmt.Sprintf("small-%d", r.Intn(64))), now, now.Add(time.Minute), small, false)
 			}
 		}(w)
 	}
@@ -542,6 +545,74 @@ func c07Stress(c *Ctx) {
 	}
 }
 
+// c07CallerBuffers: the caller of Store owns the key and the value it passes in and recycles both
+// as soon as Store returns (the router builds the key in a pooled buffer). Keys and values live in
+// pooled buffers here that are overwritten and released right after the Store; with ample
+// capacity and an hour of lifetime every key must then be found again, with exactly the value
+// stored under it.
+func c07CallerBuffers(c *Ctx) {
+	mc, err := cache.NewMemoryCache(64 << 20)
+	if err != nil {
+		c.Inconclusive("NewMemoryCache: " + err.Error())
+		return
+	}
+	defer mc.Close()
+	n := c.N(600, 6000)
+	keyOf := func(i int) string { return fmt.Sprintf("caller-buffer-key-%06d/%s", i, strings.Repeat("k", i%40)) }
+	valOf := func(i int) []byte {
+		v := bytes.Repeat([]byte{byte(i*13 + 1)}, 40+i%900)
+		v[0], v[1] = byte(i), byte(i>>8)
+		return v
+	}
+	now := time.Now()
+	for i := 0; i < n; i++ {
+		ks, vs := keyOf(i), valOf(i)
+		kb, vb := pool.GetBuf(len(ks)), pool.GetBuf(len(vs))
+		copy(kb, ks)
+		copy(vb, vs)
+		mcStore(mc, kb, now, now.Add(time.Hour), vb, i%5 == 0)
+		for j := range kb {
+			kb[j] = 'Z'
+		}
+		for j := range vb {
+			vb[j] = 0xEE
+		}
+		pool.ReleaseBuf(kb)
+		pool.ReleaseBuf(vb)
+	}
+	missing, wrong := 0, 0
+	first := ""
+	for i := 0; i < n; i++ {
+		kb := pool.GetBuf(len(keyOf(i)))
+		copy(kb, keyOf(i))
+		v, _, _ := mc.Get(kb)
+		pool.ReleaseBuf(kb)
+		switch {
+		case v == nil:
+			missing++
+			if first == "" {
+				first = fmt.Sprintf("key %q stored with one hour of lifetime in a 64 MiB cache is not found", keyOf(i))
+			}
+		case !bytes.Equal(v, valOf(i)):
+			wrong++
+			if first == "" {
+				first = fmt.Sprintf("key %q: the value found (%d octets, begins %x) is not the value stored (%d octets, begins %x)", keyOf(i), len(v), v[:min(8, len(v))], len(valOf(i)), valOf(i)[:8])
+			}
+		}
+		if v != nil {
+			pool.ReleaseBuf(v)
+		}
+	}
+	c.Ev.Eval(n)
+	c.Ev.Count("caller_buffers_keys", int64(n))
+	c.Ev.Count("caller_buffers_found_intact", int64(n-missing-wrong))
+	c.Ev.Distinct("caller-buffers", missing == 0, wrong == 0)
+	if missing+wrong > 0 {
+		c.Violation("memcache-depends-on-callers-buffers", fmt.Sprintf("%d of %d keys lost and %d changed after the caller recycled the key and value buffers it had passed to Store (Store must keep private copies): %s", missing, n, wrong, first),
+			map[string]any{"fn": "c07CallerBuffers", "keys": n, "missing": missing, "wrong": wrong})
+	}
+}
+
 // c07ConcurrentHits: a handful of large values stored once in an amply sized cache, then many
 // readers looking the same keys up at the same time, each lookup slowed down inside its copy
 // (delay point pool.get.large). Nothing is stored, evicted or expired meanwhile, so every lookup
@@ -556,7 +627,7 @@ func c07ConcurrentHits(c *Ctx) {
 	const nKeys = 3
 	now := time.Now()
 	for k := 0; k < nKeys; k++ {
-		mc.Store([]byte(fmt.Sprintf("hot-key-%d", k)), now, now.Add(time.Hour), bytes.Repeat([]byte{byte(k + 1)}, 5000), false)
+		mcStore(mc, []byte(fmt.Sprintf("hot-key-%d", k)), now, now.Add(time.Hour), bytes.Repeat([]byte{byte(k + 1)}, 5000), false)
 	}
 	time.Sleep(50 * time.Millisecond)
 	verifhook.Set("pool.get.large", "sleep(1ms,50.0%)")
